@@ -10,6 +10,7 @@ import (
 	"fmt"
 	"os"
 	"runtime"
+	"runtime/pprof"
 	"sort"
 	"strings"
 	"syscall"
@@ -58,6 +59,11 @@ func newSummary(w int) *summary {
 }
 
 func main() {
+	if pf := os.Getenv("VSIM_PROF"); pf != "" {
+		f, _ := os.Create(pf)
+		pprof.StartCPUProfile(f)
+		defer pprof.StopCPUProfile()
+	}
 	logging.SetLevel(logging.OffLevel)
 	if lv := os.Getenv("VSIM_LOG"); lv != "" {
 		var l logging.LogLevel
@@ -163,8 +169,16 @@ func batch(args []string) {
 	runOne := func(idx int, script interface{}, rs uint64) {
 		fmt.Fprintf(out, "B %d\n", idx)
 		out.Flush()
+		if simrt.RaceBuild {
+			fmt.Fprintf(os.Stderr, "RUN %d\n", idx)
+		}
 		o := d.Run(script, simrt.Config{Seed: rs})
 		sum.Runs++
+		if simrt.RaceBuild {
+			if tag, ok := o.Summary["run_tag"].(string); ok {
+				fmt.Fprintf(os.Stderr, "RUNTAG %d %s\n", idx, tag)
+			}
+		}
 		if o.Aborted != "" {
 			sum.Aborted[o.Aborted]++
 		}
